@@ -4,7 +4,7 @@ import json
 import os
 import re
 
-from lib import common, tlc, goharness
+from lib import common, tlc, goharness, findings
 from lib.common import InfraError, Violation
 
 OVERLAY = ["/verif/harness/overlay/asserts/zz_verif_assertcodec_test.go"]
@@ -82,7 +82,8 @@ def run(ctx):
                          % (lt.kind, ev["limit_violations"]))
 
     neg = negative_control(ctx, docs, recs)
-    if not ev["violations"]:
+    # guards are enforced unless there is a violation that is not a listed known finding (which exits 1 anyway)
+    if not findings.classify(ctx.prop, ev["violations"])[1]:
         for k in ("doc_ok", "stream_ok", "edit_rejected", "edit_accepted_either", "limit_rejected_required", "limit_accepted"):
             if ev["stats"].get(k, 0) == 0:
                 raise InfraError("vacuity guard: %s = 0" % k)
